@@ -7,7 +7,7 @@ EXTENDS Integers, Sequences
 
 Byte == 0..255
 Sub(b, p, n) == SubSeq(b, p, p + n - 1)          \* n bytes starting at 1-based p
-Has(b, p, n) == n >= 0 /\ p >= 1 /\ p + n - 1 <= Len(b)
+Has(b, p, n) == n >= 0 /\ p >= 1 /\ p <= Len(b) + 1 /\ n <= Len(b) - p + 1     \* written so that a hostile length (2^31-1) cannot overflow the bound computation
 
 BE16(n) == <<(n \div 256) % 256, n % 256>>
 BE32(n) == IF n >= 0
